@@ -21,7 +21,7 @@ def e2eEngine : Engine := fun inp obs =>
       match obs with
       | ["dup"] => .ok "trivial"
       | "setup-failed" :: _ => .bad "could not build the repository"
-      | "fail" :: code :: _ => .viol "C01,C10" s!"git-sizer failed (exit {code}) on a valid repository"
+      | "fail" :: code :: _ => .viol "C01,C10,C19" s!"git-sizer failed (exit {code}) or wrote an unparsable report on a valid repository"
       | ["ok", numS, witS, _grpS, revS, stderrEmpty] =>
         -- contract of git: rev-list lists exactly the closure, children before parents
         let contract : Option String :=
